@@ -42,9 +42,10 @@ STATE_FIELDS = ["time", "qpos", "qvel", "act", "history", "qacc_warmstart", "ctr
                 "eq_active", "mocap_pos", "mocap_quat", "userdata"]  # fmt: skip
 SCALAR_DERIVED = ["solver_niter", "ne", "nf", "nl", "nefc", "ntree_awake", "nbody_awake", "nv_awake"]
 LIST_DERIVED = ["energy", "qacc", "act_dot", "sensordata", "M", "tree_asleep", "tree_awake", "body_awake",
-                "body_awake_ind", "dof_awake_ind", "cvel", "cdof_dot"]  # fmt: skip
+                "body_awake_ind", "dof_awake_ind", "cvel", "cdof_dot", "efc_J"]  # fmt: skip
 WORLD_FIELDS = STATE_FIELDS + SCALAR_DERIVED + LIST_DERIVED + ["overflow"]
-NESTED = {"xfrc_applied", "mocap_pos", "mocap_quat", "cvel", "cdof_dot"}
+NESTED = {"xfrc_applied", "mocap_pos", "mocap_quat", "cvel", "cdof_dot", "efc_J"}
+FIELD_PATH = {"efc_J": "efc.J"}  # World field -> Data attribute path
 NESTED_W = {"xfrc_applied": 6, "mocap_pos": 3, "mocap_quat": 4, "cvel": 6, "cdof_dot": 6}
 CONTACT_FLOATS = ["dist", "pos", "frame", "includemargin", "friction", "solref", "solreffriction", "solimp", "adhesion"]
 CONTACT_FEV = ["flex", "elem", "vert"]
@@ -56,6 +57,7 @@ CONTACT_ALL = CONTACT_FLOATS + ["dim", "geom"] + CONTACT_FEV + ["efc_address", "
 EXPECTED_LAUNCHES = {
   "reset_xfrc_applied": ["xfrc_applied", "cvel"],
   "reset_M": ["M"],
+  "reset_efc_J": ["efc.J"],
   "reset_mocap": ["mocap_pos", "mocap_quat"],
   "reset_contact": ["contact." + f for f in ["dist", "pos", "frame", "includemargin", "friction", "solref", "solreffriction",
                                              "solimp", "dim", "geom", "flex", "elem", "vert", "efc_address", "worldid", "type",
@@ -65,7 +67,7 @@ EXPECTED_LAUNCHES = {
                    "qpos", "qvel", "act", "qacc_warmstart", "ctrl", "qfrc_applied", "eq_active", "qacc", "cdof_dot", "act_dot",
                    "userdata", "sensordata", "history", "nacon", "overflow"],  # fmt: skip
 }
-EXPECTED_LAUNCH_ORDER = ["reset_xfrc_applied", "reset_M", "reset_mocap", "reset_contact", "reset_sleep", "reset_nworld"]
+EXPECTED_LAUNCH_ORDER = ["reset_xfrc_applied", "reset_M", "reset_efc_J", "reset_mocap", "reset_contact", "reset_sleep", "reset_nworld"]
 EXPECTED_STORES = {
   "reset_nworld": {
     "solver_niter_out": ("", ""), "nacon_out": ("", "worldid == 0"), "ne_out": ("", ""), "nf_out": ("", ""),
@@ -84,6 +86,7 @@ EXPECTED_STORES = {
     "dof_awake_ind_out": ("", "elemid < nv"),
   },
   "reset_xfrc_applied": {"xfrc_applied_out": ("", ""), "cvel_out": ("", "")},
+  "reset_efc_J": {"efc_J_out": ("", "")},
 }  # fmt: skip
 EXPECTED_SLEEP_TESTS = ["elemid < ntree", "elemid < nbody", "body_treeid[elemid] < 0", "body_mocapid[body_rootid[elemid]] >= 0", "elemid < nv"]
 EXPECTED_CONTACT_GUARDS = ["conid >= nacon_in[0]", "worldid >= 0", "not reset_in[worldid]"]
@@ -232,17 +235,24 @@ def bits(a):
   return a.astype(np.int64)
 
 
+def data_attr(d, f):
+  o = d
+  for part in FIELD_PATH.get(f, f).split("."):
+    o = getattr(o, part)
+  return o
+
+
 def snapshot(d):
   """Modelled part of a real Data as nested python ints."""
   nw = d.nworld
-  arr = {f: bits(getattr(d, f).numpy()) for f in WORLD_FIELDS}
+  arr = {f: bits(data_attr(d, f).numpy()) for f in WORLD_FIELDS}
   worlds = []
   for w in range(nw):
     x = {}
     for f in WORLD_FIELDS:
       a = arr[f][w]
       if f in NESTED:
-        x[f] = [list(map(int, r)) for r in a.reshape(a.shape[0], NESTED_W[f])]
+        x[f] = [list(map(int, r)) for r in a.reshape(a.shape[0], NESTED_W.get(f, a.shape[-1]))]
       elif a.ndim == 0:
         x[f] = int(a)
       else:
@@ -328,7 +338,7 @@ def mmodel_info(mjm, m, d):
   info = {
     "nq": m.nq, "nv": m.nv, "nu": m.nu, "na": m.na, "nbody": m.nbody, "ntree": m.ntree, "neq": m.neq,
     "nuserdata": m.nuserdata, "nsensordata": m.nsensordata, "nmocap": m.nmocap, "nhistory": int(mjm.nhistory),
-    "nM": int(d.M.shape[1]), "nefcaddress": int(d.contact.efc_address.shape[1]),
+    "nM": int(d.M.shape[1]), "nJr": int(d.efc.J.shape[1]), "nJc": int(d.efc.J.shape[2]), "nefcaddress": int(d.contact.efc_address.shape[1]),
     "nfev": 6 if d.contact.flex.shape[0] > 0 else 0, "minawake": int(T.MJ_MINAWAKE),
     "sleep_enabled": bool(m.opt.enableflags & T.EnableBit.SLEEP),
     "qpos0": g(m.qpos0).reshape(-1, m.nq).tolist(), "eq_active0": g(m.eq_active0).reshape(-1).tolist(),
@@ -347,7 +357,7 @@ def mmodel_info(mjm, m, d):
   return info
 
 
-MM_ORDER = ["nq", "nv", "nu", "na", "nbody", "ntree", "neq", "nuserdata", "nsensordata", "nmocap", "nhistory", "nM",
+MM_ORDER = ["nq", "nv", "nu", "na", "nbody", "ntree", "neq", "nuserdata", "nsensordata", "nmocap", "nhistory", "nM", "nJr", "nJc",
             "nefcaddress", "nfev", "minawake", "sleep_enabled", "qpos0", "eq_active0", "body_mocapid", "body_treeid",
             "body_rootid", "dof_bodyid", "body_pos", "body_quat", "history0", "h_qpos0", "h_eq_active0", "h_body_pos", "h_body_quat", "h_history0",
             "nkey", "key_time", "key_qpos", "key_qvel", "key_act", "key_ctrl", "key_mpos", "key_mquat"]  # fmt: skip
@@ -581,7 +591,7 @@ class Scenario:
       q[1] += 0.25
       self.m.qpos0 = wp.array(q, dtype=float)
     self.ncon = 16
-    self.mk = lambda: mjw.make_data(self.mjm, nworld=nworld, nconmax=self.ncon, njmax=120)
+    self.mk = lambda: mjw.make_data(self.mjm, nworld=nworld, nconmax=self.ncon, njmax=96)
     self.d = self.mk()
     self.info = mmodel_info(self.mjm, self.m, self.d)
     self.log = []
@@ -628,6 +638,10 @@ def classify_selected(sc, field, w, after, fresh_rows):
     return "C13:make_data:awake-counters-zero"
   if field == "body_awake":
     return "C13:reset_data:body_awake-mocap-child"
+  if field == "efc.J":
+    return STALE_EFC_J_KEY
+  if field in ("cvel", "cdof_dot"):
+    return "C13:reset_data:stale-cvel-cdof_dot"
   return "C13:reset_data:field-" + field
 
 
@@ -655,7 +669,7 @@ def oracle_reset(sc, mask, wmask, ksteps, found, res):
   fresh_rows = world_rows(fresh, skip)
   sel = [True] * nw if mask is None else mask
   rep = {"scenario": sc.describe(), "log": list(sc.log), "mask": mask, "int_mask": bool(wmask is not None and wmask.dtype != wp.bool)}
-  modelled = set(WORLD_FIELDS)
+  modelled = set(WORLD_FIELDS) | set(FIELD_PATH.values())
   stale = set()
   for w in range(nw):
     if sel[w]:
@@ -684,17 +698,36 @@ def oracle_reset(sc, mask, wmask, ksteps, found, res):
         found.setdefault(key, (what, dict(rep, world=w)))
   res.extra.setdefault("stale_unmodelled_fields_after_reset", set()).update(stale)
   res.count()
-  # k further steps: selected worlds vs fresh, unselected worlds vs the un-reset twin.  dz = the reset Data
-  # with cvel / cdof_dot zeroed: tells whether a divergence is caused by those two stale fields
+  # k further steps: selected worlds vs fresh, unselected worlds vs the un-reset twin.  d0 keeps the state right
+  # after the reset: when a selected world diverges from fresh, the steps are replayed from d0 with one stale
+  # field cleared at a time to name the field that let the history through
   if ksteps:
-    dz = clone_data(sc, sc.d)
-    dz.cvel.zero_()
-    dz.cdof_dot.zero_()
+    d0 = clone_data(sc, sc.d)
+    ctrls = []
     for _ in range(ksteps):
-      set_ctrl(sc.rng, sc.mjm, [sc.d, fresh, sc.twin, dz])
-      for dd in (sc.d, fresh, sc.twin, dz):
+      ctrls.append(set_ctrl(sc.rng, sc.mjm, [sc.d, fresh, sc.twin]))
+      for dd in (sc.d, fresh, sc.twin):
         mjw.step(sc.m, dd)
-    a, f, t, z = world_rows(sc.d, skip), world_rows(fresh, skip), world_rows(sc.twin, skip), world_rows(dz, skip)
+    a, f, t = world_rows(sc.d, skip), world_rows(fresh, skip), world_rows(sc.twin, skip)
+    variants = {}
+
+    def variant_matches(name, w):
+      """does clearing the stale field(s) `name` right after the reset make world w follow the fresh Data?"""
+      if name not in variants:
+        v = clone_data(sc, d0)
+        for fld in STALE_VARIANTS[name]:
+          dst = v
+          for part in fld.split(".")[:-1]:
+            dst = getattr(dst, part)
+          getattr(dst, fld.split(".")[-1]).zero_()
+        for c in ctrls:
+          if c is not None:
+            wp.copy(v.ctrl, wp.array(c, dtype=float))
+          mjw.step(sc.m, v)
+        variants[name] = world_rows(v, skip)
+      z = variants[name]
+      return not [x for x in TRAJ_FIELDS if not np.array_equal(z[x][w], f[x][w])]
+
     for w in range(nw):
       ref = f if sel[w] else t
       bad = [x for x in TRAJ_FIELDS if not np.array_equal(a[x][w], ref[x][w])]
@@ -705,14 +738,17 @@ def oracle_reset(sc, mask, wmask, ksteps, found, res):
           causes.append("C13:reset_data:history")
         if not np.array_equal(post_rows["act"][w], fresh_rows["act"][w]):
           causes.append("C13:reset_data:act-na>nu" if sc.info["na"] > sc.info["nu"] else "C13:reset_data:field-act")
-        if not causes and not [x for x in TRAJ_FIELDS if not np.array_equal(z[x][w], f[x][w])]:
+        if not causes and variant_matches("cvel", w):
           stale_nan = bool(np.isnan(pre_rows["cvel"][w].astype(np.int32).view(np.float32)).any())
           key = "C13:reset_data:stale-cvel-cdof_dot"
           found.setdefault(key, (f"selected world {w}: every field reset_data writes equals a fresh Data, yet {ksteps} steps later it differs from a fresh Data stepped with the same ctrl in {bad}; zeroing d.cvel and d.cdof_dot after the reset removes the difference (make_constraint's equality rows read them before com_vel recomputes them){'; the stale values are NaN (diverged world): the world stays NaN after the reset' if stale_nan else ''}", dict(rep, world=w, fields=bad, ksteps=ksteps, stale_nan=stale_nan)))
           causes.append(key)
+        if not causes and variant_matches("efc_J", w):
+          report_stale_efc_J(res, found, f"generated scenario {sc.index} ({sc.kind}, nworld {nw}, mask {mask}): selected world {w} equals a fresh Data in every field reset_data writes, yet {ksteps} steps later it differs in {bad}; clearing d.efc.J right after the reset removes the difference (NaN rows >= nefc left by the diverged history are read by the dense solver with zero weight: 0*NaN)", dict(rep, world=w, fields=bad, ksteps=ksteps))
+          causes.append(STALE_EFC_J_KEY)
         res.extra.setdefault("trajectory_divergences", []).append({"world": w, "fields": bad, "explained_by": causes, "kind": sc.kind, "seed": sc.seed})
         if not causes:
-          found.setdefault("C13:reset_data:trajectory-unexplained", (f"{ksteps} steps after reset, selected world {w} differs from a fresh Data stepped with the same ctrl in {bad} although every field reset_data writes was equal right after the reset", dict(rep, world=w, fields=bad, ksteps=ksteps)))
+          found.setdefault("C13:reset_data:trajectory-unexplained", (f"{ksteps} steps after reset, selected world {w} differs from a fresh Data stepped with the same ctrl in {bad} although every field reset_data writes was equal right after the reset, and clearing cvel/cdof_dot or efc.J does not remove the difference", dict(rep, world=w, fields=bad, ksteps=ksteps)))
         else:
           for c in causes:
             if c in found and "trajectory" not in found[c][1] and "witness" in found[c][1]:
@@ -721,6 +757,16 @@ def oracle_reset(sc, mask, wmask, ksteps, found, res):
         found.setdefault("C13:reset_data:frame-trajectory", (f"{ksteps} steps after reset, unselected world {w} differs from its un-reset twin in {bad}", dict(rep, world=w, fields=bad, ksteps=ksteps)))
   sc.log.append(("reset", mask, ksteps))
   return post
+
+
+STALE_VARIANTS = {"cvel": ["cvel", "cdof_dot"], "efc_J": ["efc.J"]}
+STALE_EFC_J_KEY = "C13:reset_data:stale-nan-efc-J-rows"
+
+
+def report_stale_efc_J(res, found, what, data):
+  """NaN rows of d.efc.J survive reset_data (repaired in /repo 185e5dd: reset_efc_J).  Always a C13 violation
+  under its own key: a finding recorded under another property never excuses it."""
+  found.setdefault(STALE_EFC_J_KEY, (what, data))
 
 
 TRAJ_FIELDS = ["time", "qpos", "qvel", "act", "history", "qacc_warmstart", "qacc", "sensordata", "ctrl", "mocap_pos", "mocap_quat", "userdata", "eq_active", "qfrc_applied", "xfrc_applied"]
@@ -747,7 +793,7 @@ def run_one_scenario(res, s, seed, nops, found, tag="mm"):
     mask, wmask = random_mask(sc.rng, nw, force=(0.9 if (j == 0 and nw > 1) else None))
     pre = snapshot(sc.d)
     post = oracle_reset(sc, mask, wmask, 2, found, res)
-    name = f"dd{s}_{j}"
+    name = f"{tag}dd{s}_{j}"
     defs.append(f"Definition {name} : Data := {data_term(pre)}.")
     lines.append(f"tvz (flat_data (reset_data {tag}{s} {mask_term(mask)} {name})) {zl(flat_data(post))}")
     meta.append({"scenario": sc.describe(), "op": "reset_data", "mask": mask, "log": list(sc.log)})
@@ -762,8 +808,8 @@ def run_one_scenario(res, s, seed, nops, found, tag="mm"):
   wmask = None if mask is None else __import__("warp").array(np.array(mask, dtype=bool), dtype=bool)
   pre = snapshot(sc.d)
   post = oracle_reset(sc, mask, wmask, 2, found, res)
-  defs.append(f"Definition dd{s}_x : Data := {data_term(pre)}.")
-  lines.append(f"tvz (flat_data (reset_data {tag}{s} {mask_term(mask)} dd{s}_x)) {zl(flat_data(post))}")
+  defs.append(f"Definition {tag}dd{s}_x : Data := {data_term(pre)}.")
+  lines.append(f"tvz (flat_data (reset_data {tag}{s} {mask_term(mask)} {tag}dd{s}_x)) {zl(flat_data(post))}")
   meta.append({"scenario": sc.describe(), "op": "reset_data after divergence", "mask": mask, "log": list(sc.log)})
   res.nontrivial(("reset-diverged", kind, nw, str(mask)))
   return lines, defs, meta
@@ -786,12 +832,15 @@ def diverge(sc, ds, worlds):
   sc.log.append(("diverge", list(worlds)))
 
 
+REGRESSION_SCENARIOS = [(64, 1364, 4)]
+
+
 def run_scenarios(res, nscen, quick, found):
   """Correspondence cases + oracle on generated scenarios.  Returns (case lines, defs, meta)."""
   lines, defs, meta = [], [], []
   base = vlib.seed() * 1000 + 1300
   for s in range(nscen):
-    l, d, m = run_one_scenario(res, s, base + s, 2 if quick else 4, found)
+    l, d, m = run_one_scenario(res, s, base + s, 2 if quick else 3, found)
     lines += l
     defs += d
     meta += m
@@ -825,7 +874,16 @@ def run(res):
   wbad, replayed = witness_check(res, found)  # minimal inputs first: they become the recorded replay data
   stale = directed_stale_cvel(res, found)
   res.obligation("regression: a diverged world with a connect equality recovers after reset_data (cvel / cdof_dot cleared)", not stale, "")
-  lines, defs, meta = run_scenarios(res, 12 if quick else 80, quick, found)
+  stale_j = directed_stale_efc_J(res, found)
+  res.obligation("regression: a diverged world whose reset state has fewer constraint rows recovers after reset_data (efc.J cleared)", not stale_j, "")
+  lines, defs, meta = run_scenarios(res, 12 if quick else 48, quick, found)
+  # fixed regression scenarios (independent of VERIF_SEED): 64/1364 is the thorough-tier case in which NaN rows of
+  # d.efc.J survived reset_data (C13:reset_data:stale-nan-efc-J-rows, repaired in /repo 185e5dd)
+  for rs, rseed, rnops in REGRESSION_SCENARIOS:
+    l, d_, m_ = run_one_scenario(res, rs, rseed, rnops, found, tag="rg")
+    lines += l
+    defs += d_
+    meta += m_
   verdicts = tvalid.run_cases("C13", ["Model.Reset"], lines, chunk=12, extra_defs="Local Open Scope Z_scope.\n" + "\n".join(defs) + "\n")
   bad = [m for m, v in zip(meta, verdicts) if v != 0]
   res.count(len(lines))
@@ -968,18 +1026,60 @@ def directed_stale_cvel(res, found, verbose=False):
     mjw.step(m, d)
   mjw.reset_data(m, d)
   f = mjw.make_data(mjm, nworld=1)
-  same_state = all(np.array_equal(bits(getattr(d, k).numpy()), bits(getattr(f, k).numpy())) for k in WORLD_FIELDS if k not in ("ntree_awake", "nbody_awake", "nv_awake", "body_awake_ind", "dof_awake_ind"))
+  same_state = all(np.array_equal(bits(data_attr(d, k).numpy()), bits(data_attr(f, k).numpy())) for k in STATE_FIELDS)
   mjw.step(m, d)
   mjw.step(m, f)
   qa, qf = d.qacc.numpy()[0], f.qacc.numpy()[0]
   res.count()
   res.nontrivial("directed-stale-cvel")
   if verbose:
-    print("fields written by reset equal to fresh:", same_state, " qacc after one step: reset", qa, " fresh", qf)
+    print("integration state equal to fresh after the reset:", same_state, " qacc after one step: reset", qa, " fresh", qf)
   if same_state and not np.array_equal(bits(qa), bits(qf)):
     found.setdefault("C13:reset_data:stale-cvel-cdof_dot", (
-      f"two links with a connect equality, world diverged by qvel=1e30 then reset_data: every field reset_data writes equals a fresh Data but one step later qacc = {qa.tolist()} (fresh Data: {qf.tolist()}): d.cvel / d.cdof_dot keep their NaN and make_constraint's equality rows read them (Jdot*qvel = NaN*0) before com_vel recomputes them; the world never recovers",
+      f"two links with a connect equality, world diverged by qvel=1e30 then reset_data: the integration state equals a fresh Data but one step later qacc = {qa.tolist()} (fresh Data: {qf.tolist()}): d.cvel / d.cdof_dot keep their NaN and make_constraint's equality rows read them (Jdot*qvel = NaN*0) before com_vel recomputes them; the world never recovers",
       {"directed": "stale-cvel", "xml": STALE_CVEL_XML, "nworld": 1, "history": "qvel=1e30, 3 steps, reset_data(m, d), 1 step"}))
+    return True
+  return False
+
+
+STALE_EFC_J_XML = (
+  '<mujoco><worldbody>'
+  '<body name="a" pos="0 0 1"><joint type="hinge" axis="0 1 0" limited="true" range="0.2 1"/>'
+  '<geom type="capsule" size=".03" fromto="0 0 0 .4 0 0" contype="0" conaffinity="0"/>'
+  '<body name="b" pos=".4 0 0"><joint type="hinge" axis="0 1 0"/><geom type="capsule" size=".03" fromto="0 0 0 .4 0 0" contype="0" conaffinity="0"/></body></body>'
+  '</worldbody><equality><connect body1="b" anchor=".4 0 0" active="false"/></equality></mujoco>'
+)
+
+
+def directed_stale_efc_J(res, found, verbose=False):
+  """A limited hinge (one limit row at qpos0) and an initially inactive connect: the history sets
+  eq_active := 1 and qvel := 1e30 (3 steps: efc.J rows 0..2 become NaN), then reset_data, then one step."""
+  import mujoco
+  import warp as wp
+
+  import mujoco_warp as mjw
+
+  mjm = mujoco.MjModel.from_xml_string(STALE_EFC_J_XML)
+  m = mjw.put_model(mjm)
+  d = mjw.make_data(mjm, nworld=1)
+  wp.copy(d.eq_active, wp.array(np.array([[True]]), dtype=bool))
+  wp.copy(d.qvel, wp.array(np.full((1, mjm.nv), 1e30, dtype=np.float32), dtype=float))
+  for _ in range(3):
+    mjw.step(m, d)
+  mjw.reset_data(m, d)
+  f = mjw.make_data(mjm, nworld=1)
+  same_state = all(np.array_equal(bits(data_attr(d, k).numpy()), bits(data_attr(f, k).numpy())) for k in STATE_FIELDS)
+  mjw.step(m, d)
+  mjw.step(m, f)
+  qa, qf = d.qacc.numpy()[0], f.qacc.numpy()[0]
+  res.count()
+  res.nontrivial("directed-stale-efc-J")
+  if verbose:
+    print("integration state equal to fresh after the reset:", same_state, " qacc after one step: reset", qa, " fresh", qf)
+  if same_state and not np.array_equal(bits(qa), bits(qf)):
+    report_stale_efc_J(res, found,
+      f"limited hinge + initially inactive connect; history eq_active:=1, qvel:=1e30, 3 steps; reset_data; the integration state equals a fresh Data but one step later qacc = {qa.tolist()} (fresh Data: {qf.tolist()}): rows 1..2 of d.efc.J keep their NaN (the reset state has nefc=1) and the dense solver reads them with zero weight; the world never recovers",
+      {"directed": "stale-efc-J", "xml": STALE_EFC_J_XML, "nworld": 1, "history": "eq_active:=1, qvel:=1e30, 3 steps, reset_data(m, d), 1 step"})
     return True
   return False
 
@@ -1060,6 +1160,8 @@ def replay(res, path):
   r = stored["replay"]
   if isinstance(r, dict) and r.get("directed") == "stale-cvel":
     return 0 if directed_stale_cvel(res, {}, verbose=True) else 1
+  if isinstance(r, dict) and r.get("directed") == "stale-efc-J":
+    return 0 if directed_stale_efc_J(res, {}, verbose=True) else 1
   if not isinstance(r, dict) or not ("witness" in r or "scenario" in r):
     print("replay: no concrete input in this file (proof/correspondence breakage); re-run the check")
     return 1
